@@ -26,7 +26,7 @@ META = {
 
 CLOSURES = {'PY': ('PercusYevick', 'PY'), 'HNC': ('HyperNettedChain', 'HNC'),
             'MSA': ('MeanSphericalApproximation', 'MSA'), 'MS': ('MartynovSarkisov', 'MS')}
-GAMMAS = [-1e3, -2.0, -1.0, -0.5, -4e-3, 0.0, 1e-3, 0.5, 1.0, 3.0, 40.0, 1e3]
+GAMMAS = [-1e3, -2.0, -1.0, -0.5, -4e-3, 0.0, 1e-3, 0.5, 1.0, 3.0, 40.0, 400.0, 1e3]      # exp(400) = 5e173 is finite: the relation has a finite value there
 US = [-2.0, -0.3, -1e-3, -7e-4, -1e-11, 0.0, 3e-4, 2e-3, 0.3, 2.0, 1e6]      # -1e-11 next to 1e6: a tail 17 decades below the core value
 U_INF = float('inf')          # HardSphere(high_value=np.inf) is a legal hard core; used for every closure except MS (K1 expression is NaN there)
 SIGMAS = [1.0, 1.3, 0.75]
@@ -386,7 +386,105 @@ def case_two(rec, c):
     rec.outcome(core.digest([cname, sigma, 'two']))
 
 
-KINDS = {'two': case_two, 'rechain': case_rechain, 'product': case_product, 'alias': case_alias, 'vectors': case_vectors, 'linear': case_linear}
+def _ok_vector(cname, hc, r, sigma, g, u, out):
+    """out agrees with the published relation on (r, g, u) for flag hc (MS: core rule only, K1 owns the rest)."""
+    if cname == 'MS':
+        return (not hc) or all(out[i] == -1.0 - g[i] for i in range(len(r)) if r[i] < sigma - 1e-6)
+    w, s_, coremask = ref.ref_closure(cname, hc, r, sigma, g, u, ms_variant='inside')
+    for i in range(len(r)):
+        if coremask[i]:
+            if not out[i] == -1.0 - g[i]:
+                return False
+        elif not same(float(out[i]), float(w[i]), tol_for(cname, float(g[i]), float(u[i]), float(w[i]))):
+            return False
+    return True
+
+
+def case_toggle(rec, c):
+    """E2 over the life of ONE closure object: every sequence over {flag := True, flag := False, evaluate,
+    continue with a deepcopy, continue with a copy.copy} up to the given depth, from both construction
+    flags.  Every evaluation must follow the flag the object has at that moment (the flag is a documented
+    public attribute; System users switch it on one pair after a bulk assignment)."""
+    import copy
+    cname, sigma, depth = c['closure'], c['sigma'], c['depth']
+    r = np.array([0.3 * sigma, sigma - DR, sigma + DR, 1.7 * sigma, 2.9 * sigma])
+    u = np.array([1.7, 0.9, -0.4, 0.25, -0.05])
+    g = np.array([0.7, -0.3, 0.45, -0.2, 0.1])
+    ops = ['T', 'F', 'E', 'D', 'C']
+    for f0 in (False, True):
+        for n in range(1, depth + 1):
+            for seq in itertools.product(ops, repeat=n):
+                if seq[-1] != 'E':
+                    continue
+                X = make(cname, False, f0)
+                X.potential = u.copy()
+                X.sigma = sigma
+                flag = f0
+                rec.state()
+                for k, op in enumerate(seq):
+                    rec.trans()
+                    if op == 'T' or op == 'F':
+                        flag = (op == 'T')
+                        X.apply_hard_core = flag
+                    elif op == 'D':
+                        X = copy.deepcopy(X)
+                    elif op == 'C':
+                        X = copy.copy(X)
+                    else:
+                        try:
+                            with np.errstate(all='ignore'):
+                                out = np.array(X.calculate(r.copy(), g.copy()), dtype=float)
+                        except Exception as e:
+                            rec.fail(dict(c, f0=f0, seq=''.join(seq)), '%s: calculate raised %s after the history %s' % (CLOSURES[cname][0], type(e).__name__, ''.join(seq[:k])),
+                                     tags(cname, 'raises', 'any'))
+                            return
+                        rec.trace()
+                        if not _ok_vector(cname, flag, r, sigma, g, u, out):
+                            rec.fail(dict(c, f0=f0, seq=''.join(seq)),
+                                     '%s constructed with apply_hard_core=%s, then %s (T/F: flag assigned, D: deepcopy, C: copy, E: evaluate): with the flag now %s the '
+                                     'evaluation returns %r' % (CLOSURES[cname][0], f0, ''.join(seq[:k + 1]), flag, out.tolist()), tags(cname, 'value', 'flag-history'),
+                                     repro=("import numpy as np, pyPRISM\nc = pyPRISM.closure.%s(apply_hard_core=%r); c.sigma = 1.0; c.potential = np.array([1.7, -0.4])\n"
+                                            "c.apply_hard_core = %r\nprint(c.calculate(np.array([0.5, 1.5]), np.array([0.7, 0.45])), 'core value must be', %s)")
+                                     % (CLOSURES[cname][0], f0, flag, '-1.7' if flag else 'the relation'))
+                            return
+                rec.outcome(core.digest([cname, f0, seq]))
+
+
+def case_dtype(rec, c):
+    """The potential handed to the closure as an integer array (a step potential written with np.where(r<s, 10**6, 0))
+    or a float32 array: the result is the relation evaluated on those numbers, not a truncated / re-typed one."""
+    cname, hc, sigma = c['closure'], c['hc'], c['sigma']
+    r = np.array([0.3 * sigma, sigma - DR, sigma + DR, 1.7 * sigma, 2.9 * sigma])
+    g = np.array([0.7, -0.3, 0.45, -0.2, 0.1])
+    for name, u in (('int64', np.array([10 ** 6, 10 ** 6, -1, 2, 0], dtype=np.int64)), ('int32', np.array([3, 1, -1, 2, 0], dtype=np.int32)),
+                    ('float32', np.array([1e6, 1e6, -0.4, 0.25, -0.05], dtype=np.float32)), ('list', [1e6, 1e6, -0.4, 0.25, -0.05])):
+        X = make(cname, False, hc)
+        X.potential = u if isinstance(u, list) else u.copy()
+        X.sigma = sigma
+        rec.state()
+        rec.trans()
+        try:
+            with np.errstate(all='ignore'):
+                out = np.array(X.calculate(r.copy(), g.copy()), dtype=float)
+        except Exception as e:
+            if name == 'list':
+                rec.count('list_potential_rejected')       # documented type is an ndarray
+                continue
+            rec.fail(dict(c, dtype=name), '%s.calculate raised %s for a potential array of dtype %s' % (CLOSURES[cname][0], type(e).__name__, name), tags(cname, 'raises', 'any'))
+            continue
+        rec.trace()
+        uf = np.array(u, dtype=float)
+        if cname == 'MS' and not hc:
+            continue
+        good = _ok_vector(cname, hc, r, sigma, g, uf, out) if name != 'float32' else bool(
+            cname == 'MS' or np.allclose(out, ref.ref_closure(cname, hc, r, sigma, g, uf, ms_variant='inside')[0], rtol=1e-5, atol=1e-5))
+        if not good:
+            rec.fail(dict(c, dtype=name), '%s(hard_core=%s) with the potential given as a %s array %r returns %r, not the relation evaluated on those numbers'
+                     % (CLOSURES[cname][0], hc, name, np.array(u).tolist(), out.tolist()), tags(cname, 'value', 'dtype'))
+        rec.outcome(core.digest([cname, hc, sigma, name, out]))
+
+
+KINDS = {'toggle': case_toggle, 'dtype': case_dtype, 'two': case_two, 'rechain': case_rechain, 'product': case_product, 'alias': case_alias, 'vectors': case_vectors, 'linear': case_linear}
 
 
 def replay(rec, case):
@@ -416,13 +514,17 @@ def run(rec, tier, seed):
                         case_product(rec, {'kind': 'product', 'closure': cname, 'alias': False, 'hc': hc, 'sigma': sigma, 'flagrepr': fr})
                     case_alias(rec, {'kind': 'alias', 'closure': cname, 'hc': hc, 'sigma': sigma})
                     case_rechain(rec, {'kind': 'rechain', 'closure': cname, 'hc': hc, 'sigma': sigma})
+                    case_dtype(rec, {'kind': 'dtype', 'closure': cname, 'hc': hc, 'sigma': sigma})
                 if hc:
                     for sigma in sig:
                         case_two(rec, {'kind': 'two', 'closure': cname, 'sigma': sigma})
+                    case_toggle(rec, {'kind': 'toggle', 'closure': cname, 'sigma': 1.0, 'depth': 4 if tier == 'quick' else 6})
                 case_vectors(rec, {'kind': 'vectors', 'closure': cname, 'hc': hc})
                 case_linear(rec, {'kind': 'linear', 'closure': cname, 'hc': hc})
     rec.note('alphabets', {'closures': list(CLOSURES), 'gammas': GAMMAS, 'u': US, 'sigmas': sig,
                            'positions': ['deep', 'in1', 'at (r == sigma exactly)', 'out1', 'far'], 'symbols': SYMBOLS,
-                           'flag_spellings': ['True/False', 'numpy.bool_', '1/0']})
+                           'flag_spellings': ['True/False', 'numpy.bool_', '1/0'],
+                           'flag_histories': 'all sequences over {flag:=True, flag:=False, evaluate, deepcopy, copy} ending in an evaluation, depth <= %d, both construction flags' % (4 if tier == 'quick' else 6),
+                           'potential_dtypes': ['float64', 'int64', 'int32', 'float32 (to 1e-5)', 'list (may be rejected)']})
     rec.sample({'kind': 'product', 'closure': 'HNC', 'alias': False, 'hc': True, 'sigma': 1.3})
     rec.sample({'kind': 'vectors', 'closure': 'PY', 'hc': False})
